@@ -47,14 +47,14 @@ def run(ctx):
     return "model_checking"
 '''
 D = {
-"c02": dict(post='ctx.coverage["multichannel_real"] = multi', extra='multi = gc.multi_part(ctx, ["C02.", "C03."])',title="C02 -- channels deliver each item exactly once, in order, to the right channel",
+"c02": dict(post='ctx.coverage["multichannel_real"] = multi\n    ctx.coverage["channel_file_delivery"] = cfd', extra='multi = gc.multi_part(ctx, ["C02.", "C03."])\n    cfd = gc.chanfile_delivery_part(ctx, rng, ["C02.", "C03."])',title="C02 -- channels deliver each item exactly once, in order, to the right channel",
   cfgs='["GW_data", "GW_cb"] if ctx.quick else ["GW_data", "GW_cb", "GW_cb_recv", "GW_data_big"]', mutants='[]',
   fam="c02_programs(rng, 10 if ctx.quick else 80)", own='["C02.", "C10.callback-item", "C10.callback-missed", "C10.endmarker-before-last-item", "C08.", "C18.channel-id-handed-out-twice"]',
   line='["send", "_send", "to_io", "_local_receive", "receive", "setcallback", "new", "from_io"]',
   nontriv='lambda evs: sum(1 for e in evs if e["ev"] in ("deq", "cb")) >= 3',
   rule="generated channel programs (1-3 channels, both directions, 1-2 receiver threads or a callback per channel, two sender threads on one channel, channels passed over channels)",
   ntext="non-trivial = at least 3 items delivered", known="None"),
-"c03": dict(post='ctx.coverage["chanlife_replay"] = life', extra='life = gc.chanlife_part(ctx, ["C03."], 3 if ctx.quick else 5)',title="C03 -- close is ordered after data and observed consistently by both sides",
+"c03": dict(post='ctx.coverage["chanlife_replay"] = life\n    ctx.coverage["channel_file_delivery"] = cfd\n    ctx.coverage["multichannel_real"] = multi', extra='life = gc.chanlife_part(ctx, ["C03."], 3 if ctx.quick else 5)\n    cfd = gc.chanfile_delivery_part(ctx, rng, ["C02.", "C03."])\n    multi = gc.multi_part(ctx, ["C03."])',title="C03 -- close is ordered after data and observed consistently by both sides",
   cfgs='["GW_data", "GW_lclose"] if ctx.quick else ["GW_data", "GW_err", "GW_lclose", "GW_data_big", "GW_all_big"]', mutants='["GW_close_unfixed"]',
   fam="c03_programs(rng, 10 if ctx.quick else 80)", own='["C03.", "C10.endmarker-before-last-item"]',
   line='["close", "_local_close", "_no_longer_opened", "receive", "waitclose", "send", "isclosed", "__del__"]',
